@@ -552,6 +552,42 @@ def _record_layout(ctx, rule):
 FILTERS = ('edit_length', 'edit_terminal_set', 'check_regex')
 
 
+def r14_filter_guards(ctx, rule):
+    """Each filter runs whenever its option was given: edit_length when min_length OR max_length is set (either bound alone is a
+    request), edit_terminal_set when terminal_set is, check_regex when regex is.  (Mutation sweep: `min_length and max_length` -
+    a run with --max_length alone then filters nothing, silently.)"""
+    q = ER + 'edit_rules'
+    fn = ctx.fn(q)
+    mod = ctx.repo.modules['edit_rules.py']
+    want = {'edit_length': {'min_length', 'max_length'}, 'edit_terminal_set': {'terminal_set'}, 'check_regex': {'regex'}}
+    ok = True
+    n = 0
+    for st in walk_stmts(fn.body):
+        if isinstance(st, ast.Assign) and isinstance(st.value, ast.Call) and call_name(st.value) in want:
+            n += 1
+            name = call_name(st.value)
+            conds = path_conditions(mod, st)
+            if len(conds) != 1 or not conds[0][1]:
+                ok = False
+                ctx.unk(rule, q, '%s runs under %s' % (name, [(U(t), p) for t, p in conds]))
+                continue
+            t = conds[0][0]
+            opts = {const(c.args[0]) for c in ast.walk(t) if isinstance(c, ast.Call) and isinstance(c.func, ast.Attribute) and c.func.attr == 'get'
+                    and c.args and isinstance(const(c.args[0]), str)} | \
+                   {const(x.slice) for x in ast.walk(t) if isinstance(x, ast.Subscript) and isinstance(const(x.slice), str)}
+            conj = any(isinstance(x, ast.BoolOp) and isinstance(x.op, ast.And) for x in ast.walk(t))
+            neg = any(isinstance(x, ast.UnaryOp) and isinstance(x.op, ast.Not) for x in ast.walk(t))
+            if opts != want[name] or neg:
+                ok = False
+                ctx.unk(rule, q, '%s is guarded by %s' % (name, U(t)[:70]))
+            elif conj and len(want[name]) > 1:
+                ok = False
+                ctx.bad(rule, q, '%s only runs when %s' % (name, U(t)[:70]), 'either bound alone is a request: with only --max_length (or only '
+                        '--min_length) given the length filter must still run', None, st, firm=True)
+    if ctx.floor(rule, q, n, 3, 'filter applications in edit_rules') and ok:
+        ctx.ok(rule, q, 'each of the three filters runs whenever (one of) its option(s) is set')
+
+
 def r9_filter_chain(ctx, rule):
     """With several filter options the structures kept are those passing ALL of them: in edit_rules every filter reads the text the
     previous step left and writes its result back to the same variable, that variable starts as the text read from grammar.txt
@@ -628,7 +664,9 @@ def rules(tier):
             # C20-ca: --rule reduced to its basename: a ruleset named by sub folder or path edits another ruleset
             ('C20.R12', _shared_rule('plumbing', 'options_not_rewritten')),
             # C20-da: terminal files written as utf-8 while config.ini records the training encoding - values come back longer than their label
-            ('C20.R13', _shared_rule('c07', 'r2_encoding_agreement'))]
+            ('C20.R13', _shared_rule('c07', 'r2_encoding_agreement')),
+            # mutation sweep: the length filter guarded by min_length AND max_length
+            ('C20.R14', _shared_rule('c20', 'r14_filter_guards'))]
 
 
 META = {
